@@ -78,7 +78,7 @@ theorem run_post (p : Prog) : ∀ (s : TS), NoCatch p → Flat p → Good s →
     intro s hp hf h
     simp only [run]
     exact aexit_post ig _ s _ _ (ih _ hp hf (enter_good s _ h))
-  | group ms body _ => intro s _ hf; exact absurd hf id
+  | group anyp ms body _ => intro s _ hf; exact absurd hf id
 
 /-- **C12** on the repaired model: for every program that does not itself catch or raise the
     cancellation family, every start time and every external-cancel instant: if the cancel request
